@@ -47,7 +47,7 @@ func (c *Ctx) checkHeaderAppend(rule, parser, field, literal string) {
 	var stored ssa.Value
 	allInstrs(f, func(in ssa.Instruction) {
 		if st, ok := in.(*ssa.Store); ok {
-			if fa, ok := st.Addr.(*ssa.FieldAddr); ok && fieldOfAddr(fa).Var.Name() == field && fieldOfAddr(fa).Var.Exported() {
+			if fa, ok := st.Addr.(*ssa.FieldAddr); ok && vname(fieldOfAddr(fa).Var) == field && token.IsExported(vname(fieldOfAddr(fa).Var)) {
 				stored = st.Val
 			}
 		}
@@ -560,7 +560,6 @@ func ruleC09Siblings(c *Ctx) {
 	}
 }
 
-
 func rangeStr(r countRange) string {
 	if r.Min == r.Max {
 		return fmt.Sprint(r.Min)
@@ -1065,7 +1064,7 @@ func ruleC02SizeSource(c *Ctx) {
 				return
 			}
 			fa, ok := st.Addr.(*ssa.FieldAddr)
-			if !ok || fieldOfAddr(fa).Var.Name() != "Size" || countKind(fieldOfAddr(fa).Var.Type()) == "" {
+			if !ok || vname(fieldOfAddr(fa).Var) != "Size" || countKind(fieldOfAddr(fa).Var.Type()) == "" {
 				return
 			}
 			n++
